@@ -10,7 +10,7 @@ if HOOKS not in sys.path:
     sys.path.insert(0, HOOKS)
 import deeprob_verif_hooks as H
 
-from deeprob.spn.structure.node import Sum, Product, assign_ids, topological_order_layered
+from deeprob.spn.structure.node import Sum, Product, assign_ids, topological_order_layered, topological_order, bfs, dfs_post_order
 from deeprob.spn.structure.leaf import Bernoulli
 from deeprob.spn.algorithms import evaluation as E
 from deeprob.spn.algorithms.inference import likelihood, log_likelihood, mpe
@@ -344,6 +344,27 @@ def run(ctx):
                     ctx.count('layerings-vs-model')
                     if m != txt:
                         ctx.violation('c08-layers-vs-model', f'layered order differs from the model: impl {txt} model {m} [{name}]', replay=rep, found_input=False)
+                    # three-way, exact: implementation = the loop GENERATED from the current source (Gen.S5layered… / Gen.S5topo…
+                    # iterated by the driver) = the model (Sched.layers / Net.kahn)
+                    g = drv.ask(dict(op='s5_layers'))
+                    ctx.count('layerings-vs-generated')
+                    if not (g == txt == m):
+                        ctx.violation('c08-layers-vs-generated', f'topological_order_layered: impl {txt} generated {g} model {m} [{name}]', replay=rep, found_input=False)
+                    impl_order = topological_order(root)
+                    otxt = 'none' if impl_order is None else ' '.join(str(index[id(n)]) for n in impl_order)
+                    go, mo = drv.ask(dict(op='s5_topo')), drv.ask(dict(op='kahn'))
+                    ctx.count('orderings-vs-generated')
+                    if not (go == otxt + ' queueempty=true' and mo == otxt):
+                        ctx.violation('c08-topo-vs-generated', f'topological_order: impl {otxt} generated {go} model {mo} [{name}]', replay=rep, found_input=False)
+                    btxt = ' '.join(str(index[id(n)]) for n in bfs(root))
+                    gb, mb = drv.ask(dict(op='s5_bfs')), drv.ask(dict(op='collect'))
+                    dtxt = ' '.join(str(index[id(n)]) for n in dfs_post_order(root))
+                    gd = drv.ask(dict(op='s5_dfs'))
+                    ctx.count('walks-vs-generated')
+                    if not (gb == btxt + ' workempty=true' and mb == btxt):
+                        ctx.violation('c08-bfs-vs-generated', f'bfs: impl {btxt} generated {gb} model {mb} [{name}]', replay=rep, found_input=False)
+                    if gd != dtxt + ' workempty=true':
+                        ctx.violation('c08-dfs-vs-generated', f'dfs_post_order: impl {dtxt} generated {gd} [{name}]', replay=rep, found_input=False)
                     if [sorted(l) for l in hook_txt] != [sorted(int(n.id) for n in lay) for lay in impl_layers]:
                         ctx.violation('c08-layers-run', f'the layers actually run differ from topological_order_layered [{name}]', replay=rep, found_input=False)
         if ctx.n_new(with_input_only=True) >= 3:
